@@ -10,7 +10,8 @@
 \*   idm  id        : "ok" | "absent"
 \*   pos  "pos"     : "absent" | "yx" (["y","x"]) | "y" (["y"]) | "empty"
 \*                    ([]) | "none" | "str" ("y") | "ybad" (["y","nocol"])
-\*   leg  legacy    : "absent" | "yx" (y->"y", x->"x") | "x" (x->"x")
+\*   leg  legacy    : "absent" | "yx" (y->"y", x->"x") | "x" (x->"x") | "zyx" (z->"a", y->"y", x->"x")
+\*                    | "zbad" (z->"nocol", y, x) | "ybad3" (z->"a", y->"nocol", x)
 \*   cu   custom    : "absent" | "ok" | "bad" | "none" | "empty"
 \*   ax   ellipse_axis_radii (a spatial_dims feature):
 \*                    "absent" | "two" (["a","b"]) | "three" | "str" ("a")
@@ -23,16 +24,17 @@ EXTENDS Integers, Sequences, FiniteSets, TLC
 
 Maps == [tm : {"ok", "none", "bad", "absent"}, idm : {"ok", "absent"},
          pos : {"absent", "yx", "y", "empty", "none", "str", "ybad"},
-         leg : {"absent", "yx", "x"}, cu : {"absent", "ok", "bad", "none", "empty"},
+         leg : {"absent", "yx", "x", "zyx", "zbad", "ybad3"}, cu : {"absent", "ok", "bad", "none", "empty"},
          ax : {"absent", "two", "three", "str"}, seg : BOOLEAN,
          em : {"nomap", "empty", "iou", "collide"}]
 
 \* ---- preprocessing: the node map as a record of per-key states -----------------
 \* value of "pos" after the legacy conversion: only when "pos" is NOT a key of the map (a None / [] entry
 \* IS a key), and only with at least two coordinate columns; the legacy keys are deleted in any case
+\* ("zyx": three existing columns; "zyxbad": three columns one of which the table does not have)
 PosAfterLegacy(m) ==
     IF m.pos # "absent" THEN m.pos
-    ELSE IF m.leg = "yx" THEN "yx" ELSE "absent"
+    ELSE CASE m.leg = "yx" -> "yx" [] m.leg = "zyx" -> "zyx" [] m.leg \in {"zbad", "ybad3"} -> "zyxbad" [] OTHER -> "absent"
 LegacyLeft(m) == IF m.pos # "absent" THEN m.leg ELSE "absent"      \* legacy keys still in the map
 \* None and [] entries are dropped
 Drop(v) == IF v \in {"none", "empty"} THEN "absent" ELSE v
@@ -45,9 +47,11 @@ ReqMissing(p) == p.tm = "absent" \/ p.idm = "absent"
 \* 2. position: a list needs two columns; no position at all needs a segmentation
 PosBad(p) == p.pos = "y" \/ (p.pos = "absent" /\ ~p.seg)
 \* 3. every mapped column exists
-ColMissing(p) == p.tm = "bad" \/ p.pos = "ybad" \/ p.cu = "bad"
+ColMissing(p) == p.tm = "bad" \/ p.pos \in {"ybad", "zyxbad"} \/ p.cu = "bad"
+                 \/ (p.leg \in {"zbad", "ybad3"})          \* a left-over legacy key that names a missing column
 \* 4. spatial_dims features: list length = number of position columns (known only from a LIST position)
-DimsBad(p) == p.pos \in {"yx", "ybad"} /\ p.ax = "three"
+PosLen(p) == CASE p.pos \in {"yx", "ybad"} -> 2 [] p.pos \in {"zyx", "zyxbad"} -> 3 [] OTHER -> 0
+DimsBad(p) == (PosLen(p) = 2 /\ p.ax = "three") \/ (PosLen(p) = 3 /\ p.ax = "two")
 \* 5. a key used for nodes and for edges
 Collide(p) == p.em = "collide" /\ p.cu # "absent"
 
@@ -77,14 +81,16 @@ Model(mm) == LET p == Pre(mm) IN
 \* a required key that is not mapped to a column of the table; no position although there is no segmentation;
 \* a mapped column that the table does not have
 MapsTo(v) == v \notin {"absent", "none", "empty"}
-HasPos(mm) == (mm.pos \in {"yx", "str", "ybad"}) \/ (mm.pos = "absent" /\ mm.leg = "yx")
+HasPos(mm) == (mm.pos \in {"yx", "str", "ybad"}) \/ (mm.pos = "absent" /\ mm.leg \in {"yx", "zyx", "zbad", "ybad3"})
 MustReject(mm) ==
     \/ ~MapsTo(mm.tm) \/ mm.tm = "bad" \/ mm.idm = "absent"
     \/ (~HasPos(mm) /\ ~mm.seg)
-    \/ mm.pos = "ybad" \/ mm.cu = "bad"
+    \/ mm.pos = "ybad" \/ mm.cu = "bad" \/ mm.leg \in {"zbad", "ybad3"}
 \* a map without any flaw must be accepted
-Clean(mm) == /\ mm.tm = "ok" /\ mm.idm = "ok" /\ mm.pos \in {"yx", "str", "absent"} /\ (mm.pos = "absent" => (mm.leg = "yx" \/ mm.seg))
-             /\ mm.cu \in {"absent", "ok"} /\ mm.ax \in {"absent", "two", "str"} /\ mm.em \in {"nomap", "empty", "iou"}
+Clean(mm) == /\ mm.tm = "ok" /\ mm.idm = "ok" /\ mm.pos \in {"yx", "str", "absent"}
+             /\ (mm.pos = "absent" => (mm.leg \in {"yx", "zyx"} \/ (mm.seg /\ mm.leg \in {"absent", "x"})))
+             /\ mm.cu \in {"absent", "ok"} /\ mm.em \in {"nomap", "empty", "iou"}
+             /\ mm.ax \in (IF mm.pos = "absent" /\ mm.leg = "zyx" THEN {"absent", "three", "str"} ELSE {"absent", "two", "str"})
              /\ (mm.pos # "absent" => mm.leg = "absent")
 MapOK(mm, r) == (MustReject(mm) => r = "ValueError") /\ (Clean(mm) => r = "ok")
 
